@@ -7,6 +7,7 @@ SPEC = {
                                     "C16_rule_kind_matters", "C16_alerts_answered_from_rules",
                                     "C16_verdict_reflects_database_at_probe_instants", "C16_probe_instants",
                                     "C16_range_probe_is_unsliced_runs", "C16_disappeared_metric_is_reported", "C16_matcher_never_matches_is_reported",
+                                    "C16_checked_selectors_are_those_without_own_fallback", "C16_checked_selectors_examples",
                                     "C16_nonvacuous"]},
     "harness_args": lambda tier: ["C16", "--n", 400 if tier == "quick" else 3000],
     "search_args": lambda tier: ["C16", "--n", 1200],
@@ -20,9 +21,13 @@ SPEC = {
         "accumulated len(problems) tests, step 4 (min-age), steps 5-7 per matcher, step 8, FindGaps against the uptime; the request "
         "parameters (instant: no time parameter; range: start/end/step of C13's slices). One sub-case is Undetermined and not compared "
         "(step 6 with non-empty gap lists on both sides: sub-millisecond clock differences decide it)",
-        "inputs taken from the implementation through overlay exports: the list getNonFallbackSelectors(expr) (cross-checked against "
-        "the generator's by-construction expectation in the oracle), stripLabels(sel).String(), isDisabled/isSnoozed flags, getMinAge, "
-        "isLabelValueIgnored",
+        "hand-written model Model/SeriesSelectors.v of getNonFallbackSelectors / appendJoinSelectors / selectorHasFallback over a model "
+        "of the Source tree of utils.LabelsSource (Selector, AlwaysReturns, IsConditional, Joins, Unless) for the fragment selectors / "
+        "always-returning operands / wrappers / comparisons with numbers / or / joins / unless; tied by comparing, on every case, the "
+        "ordered list of positions it computes with the list the real function returns (the harness converts the Prometheus AST)",
+        "inputs taken from the implementation through overlay exports: the selector records of getNonFallbackSelectors(expr) (their "
+        "positions are compared with the selection model, and with the generator's by-construction expectation in the oracle), "
+        "stripLabels(sel).String(), isDisabled/isSnoozed flags, getMinAge, isLabelValueIgnored",
         "harness: generators (rule files with extra rules of both kinds named like the referenced metrics/alerts, comments; databases: "
         "present / never / old data only / other label values / disappeared / appeared / intermittent / appeared, disappeared, "
         "reappeared 0.5-7.5 min ago; uptime with a hole), the engine-backed fake Prometheus (/api/v1/query and /api/v1/query_range "
@@ -55,7 +60,10 @@ MANIFEST = {
             "RECORDING rule of that name (C16_rule_kind_matters: alerting rules never count), no disable/snooze comment, not in "
             "ignoreMetrics, and no other server (or no ignoreMatchingElsewhere), gets exactly a Bug 'query on nonexistent series'; "
             "carve-outs are explicit premises (only checked selectors; ALERTS answered from ALERTING rules - "
-            "C16_alerts_answered_from_rules). The probe instants are pinned: the request parameters are part of the model, "
+            "C16_alerts_answered_from_rules). WHICH selectors are checked is a theorem too: "
+            "C16_checked_selectors_are_those_without_own_fallback - over a model of the Source tree, for unless-free expressions the "
+            "checked selectors are all selectors of the expression except those sitting beside an `or <always returning>` (an "
+            "always-returning operand elsewhere exempts nothing; nested joins are followed). The probe instants are pinned: the request parameters are part of the model, "
             "C16_verdict_reflects_database_at_probe_instants - the whole verdict list (steps 0-8) is a function of the database at "
             "`now` and at the grid points of the slices (C16_probe_instants), C16_range_probe_is_unsliced_runs - every range probe is "
             "the runs of ONE unsliced evaluation (C13). Steps 3-8 are modelled and compared; two links are stated: "
